@@ -19,7 +19,7 @@ Fixpoint cells (p : Z) (t : tree) : list (Z * cell) :=
       cells i l ++ (i, mkCell k v p (root_id l) (root_id r) (is_black c)) :: cells i r
   end.
 
-Definition header_of (t : tree) : header := mkHeader (root_id t) (min_id t) (max_id t) (size t).
+Definition header_of (t : tree) : header := mkHeader (root_id t) (min_id t) (max_id t) (tsize t).
 
 Definition to_arena (t : tree) : header * list (Z * cell) := (header_of t, cells 0 t).
 
@@ -99,6 +99,6 @@ Definition snapshot_rb_okb (a : Z -> cell) (h : header) : bool := rb_okb (arena_
 Definition snapshot_map_okb (a : Z -> cell) (h : header) (spec : list (Z * Z * Z)) : bool :=
   entries_eqb (elems (arena_tree a h)) spec.
 
-(* logarithmic depth, as a check: 2^(height/2) <= size + 1 *)
+(* logarithmic depth, as a check: 2^(height/2) <= tsize + 1 *)
 Definition height_okb (t : tree) : bool :=
-  Z.pow 2 (Z.of_nat (Nat.div2 (S (height t)))) <=? size t + 1.
+  Z.pow 2 (Z.of_nat (Nat.div2 (S (height t)))) <=? tsize t + 1.
